@@ -26,6 +26,7 @@ def run(tier: str) -> int:
     recs = pmap(drv.exec_osu, scns)
     nc = 1200 if tier == "quick" else 20000
     recs += pmap(drv.exec_chart, [{"id": f"c{i}", "keys": 1 + i % 18, "n": 1 + i % 40, "neg_sv": i % 3 == 0} for i in range(nc)])
+    recs += pmap(drv.exec_bundled, drv.bundled_scenarios(tier), chunk=2)
     rejects, consumed, wall = validate_traces("OsuTrace", "OsuTrace", recs, tag=f"c01-{tier}", heap="4g")
     chk.add_traces(recs, rejects)
     chk.nontrivial = len({(x["op"], str(x.get("file", x.get("gens")))[:3000]) for x in recs})
@@ -34,7 +35,7 @@ def run(tier: str) -> int:
                 "variants (values with ':', non-ASCII, padded, CRLF), read by the library and compared by TLC with the denotation of "
                 "the independently lexed tokens; the chart is written, the written text lexed and judged (well-formed, denotes the "
                 "chart within 1 ms), re-read (exact) and taken through 3 generations; one file per key count 1..18 holds a hit at "
-                "every x in 0..512; plus seeded in-memory charts (fractional, negative, large times). non-trivial = distinct records")
+                "every x in 0..512; plus seeded in-memory charts (fractional, negative, large times) and the repository's bundled .osu maps cut into self-contained files of <=120 objects. non-trivial = distinct records")
     for op in ("read", "write", "generations"):
         for x in recs:
             if x["op"] == op and not x["exc"] and x["id"].startswith("m"):
